@@ -126,6 +126,13 @@ func (l *lockedBuf) Write(p []byte) (int, error) {
 }
 
 // Run executes one job against the real Executor.
+func init() {
+	// the call variables V and W also exist in the process environment: call variables win, and a variable is
+	// part of "the set of variable values" of a call whether or not the environment has one of the same name
+	os.Setenv("V", "v-from-the-environment")
+	os.Setenv("W", "w-from-the-environment")
+}
+
 func Run(job Job, scratch string) (res Result) {
 	res.Job = job
 	p := job.Prog
